@@ -248,10 +248,19 @@ def block(rng, kind, big=False, min_items=0, fmix=None, masks=None, fmt=None, hu
     raise ValueError(kind)
 
 
-def opaque(rng, exclude=()):
+UNSUPPORTED_FMT = {5: (3, 4), 11: (2,), 12: (2, 3, 4), 9: (2, 3)}  # declared by the format, not implemented here
+
+
+def opaque(rng, exclude=(), known_ok=False):
     codes = [c for c in OPAQUE_CODES if c not in exclude]
-    code = rng.choice(codes)
+    known = [c for c in UNSUPPORTED_FMT if c not in exclude]
     n = rng.choice((0, 1, 7, 64, 85, 300, rng.randint(1, 900)))
+    if known_ok and known and (not codes or rng.random() < 0.3):
+        # a block of a type the library knows, in a layout of that type it does not implement
+        # (3D data by frame ...): it is there, it can be moved and removed, it cannot be decoded
+        code = rng.choice(known)
+        return {"code": code, "fmt": rng.choice(UNSUPPORTED_FMT[code]), "bytes": bytes(rng.getrandbits(8) for _ in range(n))}
+    code = rng.choice(codes)
     return {"code": code, "fmt": rng.randint(0, 5), "bytes": bytes(rng.getrandbits(8) for _ in range(n))}
 
 
